@@ -45,7 +45,8 @@ func scratchRoot() string {
 }
 
 type slot struct {
-	open bool
+	open    bool
+	initApp bool // created while the head was uninitialised
 	v1   storage.Appender
 	v2   storage.AppenderV2
 	m    *tsdbmodel.App
@@ -110,6 +111,7 @@ type exec struct {
 	onReload func(string)
 
 	oooCompactedThisEpoch bool
+	stopAfterStep         bool
 
 	failed bool
 }
@@ -822,7 +824,7 @@ func Execute(t *testing.T, prop string, plan *Plan) (res *runner.Result) {
 		}
 		e.opIdx = i
 		e.step(op)
-		if e.failed {
+		if e.failed || e.stopAfterStep {
 			break
 		}
 	}
@@ -944,6 +946,7 @@ func (e *exec) openSlot(i int) *slot {
 		s.v1 = e.db.Appender(ctx)
 	}
 	s.m = &tsdbmodel.App{W: w, Covered: e.covered}
+	s.initApp = !init
 	s.open = true
 	e.res.Count("appenders_opened", 1)
 	return s
@@ -957,6 +960,10 @@ func (e *exec) doAdd(o Op) {
 		return
 	}
 	s := e.openSlot(o.Slot % 3)
+	if s.initApp {
+		// an appender created on an empty head is a lazy wrapper that forgets options set before its first append
+		o.Rej = false
+	}
 	t := e.resolveT(o, s)
 	v := e.mkValue(o, o.S, t)
 	var ref storage.SeriesRef
@@ -991,8 +998,11 @@ func (e *exec) doAdd(o Op) {
 		// i.e. not in append order. Any later sample of the same series in the same transaction is affected.
 		for _, p := range s.m.Pending {
 			if p.Series == o.S && p.S.Kind == tsdbmodel.KFloat && p.S.IsStale() {
-				e.res.Count("skipped:stale-marker-commit-reorder", 1)
-				return
+				if e.cfg.KF != TagStaleReorder {
+					e.res.Count("skipped:stale-marker-commit-reorder", 1)
+					return
+				}
+				s.m.ReorderSeries = append(s.m.ReorderSeries, o.S)
 			}
 		}
 	}
@@ -1084,6 +1094,15 @@ func (e *exec) doAdd(o Op) {
 	if !agree && o.Rej && (d.Out == tsdbmodel.TooOld && out == tsdbmodel.OutOfOrder) {
 		agree = true
 	}
+	// A float staleness marker is turned into a histogram marker when the same appender already holds a histogram
+	// for the series; whether it is then still "bit-identical" to a stored float marker is not pinned by the statement.
+	if !agree && v.IsStale() && d.NoOp && out == tsdbmodel.Duplicate {
+		for _, p := range s.m.Pending {
+			if p.Series == o.S && p.S.Kind != tsdbmodel.KFloat {
+				agree = true
+			}
+		}
+	}
 	if !agree {
 		e.res.Count("admission_mismatch", 1)
 		if e.prop == "C02" {
@@ -1140,6 +1159,9 @@ func (e *exec) doCommit(i int) {
 	}
 	if e.m.Epoch > 0 && e.oooCompactedThisEpoch {
 		s.m.OOOTag = tsdbmodel.TagRefReuse
+	}
+	if len(s.m.ReorderSeries) > 0 {
+		e.stopAfterStep = true // the model cannot follow the implementation's order past this commit
 	}
 	eff := e.m.Commit(s.m)
 	e.res.Count("commits", 1)
